@@ -12,6 +12,7 @@ from .c04 import PL3, place
 
 PROPERTY = "C11"
 ENGINE = "E2"
+TECHNIQUE = "bounded-exhaustive enumeration of convex cores x radii x placements vs Steiner formulas with exact V,S,A,P and mean curvature from exact integer normals"
 RULE = (
     "cases = convex core (S3 lattice hulls, FAM tabulated/generated solids; CP2 convex lattice polygons and regular n-gons) x "
     "rounding radius r/L in {0,1e-3,0.1,1,10,100} x placement; V, S, A, P are exact integrals of the placed floats, M = sum over "
